@@ -164,6 +164,21 @@ def check(run, rule):
                 from .common import guards
                 gs = guards(prog, c, calls[0][0])
                 okc = any(strip(g)[0] == "param" and tk != 0 for g, tk, sw in gs)
+        if not okc:
+            # the same written as a loop: `for (passed, fragments) in bool_fragments { if passed { out.extend(fragments) } }`:
+            # an extend in the function itself whose only non-loop guard is the first component of the iterated item
+            from .common import guards
+            pex = Expr(prog, p)
+            calls = [(bid, t) for bid, t in prog.calls(p) if re.search(r"Extend<.*>>::extend$|::extend_from_slice$", Program.callee_name(t))]
+            for bid, t in calls:
+                val = strip(pex.operand(t["args"][1]))
+                item = val[0] == "field" and tuple(f for f in val[2] if str(f).isdigit())[-1:] == ("1",) and mentions(val, lambda z: z[0] == "call" and z[1].endswith("Iterator>::next"))
+                gs = [(strip(g), tk) for g, tk, sw in guards(prog, p, bid)]
+                non_loop = [(g, tk) for g, tk in gs if not (g[0] == "discr" and mentions(g, lambda z: z[0] == "call" and z[1].endswith("Iterator>::next")))]
+                flag = len(non_loop) == 1 and non_loop[0][1] != 0 and non_loop[0][0][0] == "field" and \
+                    tuple(f for f in non_loop[0][0][2] if str(f).isdigit())[-1:] == ("0",) and mentions(non_loop[0][0], lambda z: z[0] == "call" and z[1].endswith("Iterator>::next"))
+                if item and flag:
+                    okc = True
         good("Property::fragments = concatenation of the entries whose condition holds", p) if okc else bad("Property::fragments", p, "fold closure is not `if passed { acc.extend(fragments) }`")
     else:
         bad("Property::fragments", None, "function not found")
